@@ -5,6 +5,7 @@ pub mod c02;
 pub mod c04;
 pub mod c05;
 pub mod c06;
+pub mod c07;
 pub mod c17;
 pub mod execs;
 pub mod c09;
@@ -12,7 +13,7 @@ pub mod c10;
 pub mod c11;
 
 pub fn all() -> Vec<Box<dyn Prop>> {
-    vec![Box::new(c01::C01), Box::new(c02::C02), Box::new(c04::C04), Box::new(c05::C05), Box::new(c06::C06), Box::new(c17::C17), Box::new(c09::C09), Box::new(c10::C10), Box::new(c11::C11)]
+    vec![Box::new(c01::C01), Box::new(c02::C02), Box::new(c04::C04), Box::new(c05::C05), Box::new(c06::C06), Box::new(c07::C07), Box::new(c17::C17), Box::new(c09::C09), Box::new(c10::C10), Box::new(c11::C11)]
 }
 
 /// Developer utilities (`verif dbg <what> ...`).
@@ -53,7 +54,7 @@ pub fn debug_cmd(args: &[String]) {
                 let input = crate::core::cairo::virtual_crate_input("x", &src, crate::core::cairo::SETTINGS_2024_07, None);
                 match crate::core::exec::sierra_of_crate(&db, &input) {
                     Ok(p) => println!("{} -> {} statements, hash {:x}", c.describe(), p.statements.len(), crate::core::choices::hash_str(&p.to_string())),
-                    Err(e) => println!("{} -> error {}", c.describe(), &e[..e.len().min(300)]),
+                    Err(e) => println!("{} -> error {}", c.describe(), &e[..e.len().min(3000)]),
                 }
                 let _ = MetaCfg::linear();
             }
